@@ -411,6 +411,7 @@ class Generator:
         segs = self.splice_fn(rel, addr, head_and_body, it, c, status, line_of(it.head_start))
         info = FnInfo(addr=addr, status=status, src_file=rel, src_line=line_of(it.head_start),
                       tags=(c.tags if c else []), bounded=(c.bounded if c else None), has_contract=bool(c))
+        info.bodytags = dict(c.bodytags) if c else {}
         pre = '\n' + ''.join(a + '\n' for a in attrs)
         if c:
             pre += ''.join(a + '\n' for a in c.attrs)
@@ -754,6 +755,12 @@ class Generator:
                     desugar_close = (toks[close_tok].start, Seg('} } }', 'src'), toks[close_tok].end)
                 else:
                     desugar_open = desugar_close = None
+                    close_tok = match_close(toks, s[r])
+                loopend_segs = []
+                for pf in c.proofs:
+                    if pf.mode == 'loopend' and int(pf.regex) == n:
+                        loopend_segs.append((toks[close_tok].end, Seg('\n' + pf.text.rstrip('\n') + '\n', 'proof', oid=pf.oid,
+                                             tags=tuple(pf.tags), ckind='proof', addr=addr), toks[close_tok].end))
                     for pf in c.proofs:
                         if pf.mode in ('loophead', 'loopbody') and int(pf.regex) == n:
                             inserts.append((lb + 1, Seg('\n' + pf.text.rstrip('\n') + '\n', 'proof', oid=pf.oid,
@@ -780,6 +787,7 @@ class Generator:
                 if desugar_open:
                     inserts.extend(desugar_open)
                     inserts.append(desugar_close)
+                inserts.extend(loopend_segs)
             # R15: closure headers get parameter types, a named result and requires/ensures; the closure
             # body is copied verbatim inside braces
             for cs in c.closures:
@@ -811,7 +819,7 @@ class Generator:
                 seg = Seg('\n' + pf.text.rstrip('\n') + '\n', 'proof', oid=pf.oid, tags=tuple(pf.tags), ckind='proof', addr=addr)
                 if pf.mode == 'start':
                     inserts.append((b_lo, seg, b_lo)); continue
-                if pf.mode in ('loophead', 'loopbody'):
+                if pf.mode in ('loophead', 'loopbody', 'loopend'):
                     if int(pf.regex) not in c.loops:
                         raise ToolCondition('%s: @proof %s %s without @loop' % (addr, pf.mode, pf.regex))
                     continue
